@@ -780,6 +780,9 @@ def replay_fwd_actuation(ctx, name, ma, da):
 
 
 def main(tier, seed, only=None):
+  import mujoco_warp  # noqa: imported once here so that the forked unit processes inherit the loaded modules
+  from mujoco_warp._src import forward, smooth, support, util_misc  # noqa
+
   units = [("reference", unit_reference), ("lemma/clip", unit_lemma_clip)]
   units += [unit_muscle(x) for x in ("gain", "bias", "dynamics")]
   combos = list(itertools.product(DYN, GAIN, BIAS))
